@@ -17,6 +17,7 @@ import (
 	"sort"
 	"strconv"
 	"strings"
+	"time"
 )
 
 func jsonQuote(s string) string {
@@ -146,6 +147,21 @@ func (e *jsonEnc) str(v value) {
 
 func (e *jsonEnc) enc(t types.Type, v value) {
 	r := e.r
+	if t.String() == "time.Time" {
+		// time.Time is modelled as {0, ns since epoch, nil}; RFC 3339 like encoding/json
+		if st, ok := v.(structure); ok {
+			if ns, ok := st[1].(int64); ok {
+				if ns == 0 {
+					e.lit(`"0001-01-01T00:00:00Z"`)
+				} else {
+					e.lit(`"` + time.Unix(0, ns).UTC().Format(time.RFC3339Nano) + `"`)
+				}
+				return
+			}
+		}
+		e.lit(`"<time>"`)
+		return
+	}
 	// Marshaler / TextMarshaler (value or pointer receiver on addressable — value receiver only here)
 	if _, isIface := t.Underlying().(*types.Interface); !isIface {
 		if f := r.findMethod(t, "MarshalJSON"); f != nil {
